@@ -198,7 +198,7 @@ type structKey struct {
 func init() {
 	core.Register(&core.Prop{
 		ID: "C09",
-		Rule: "bounded-exhaustive: every sequence of length<=L over the 10-letter alphabet {Store(k,fresh) , Load(k), Delete(k) : k in {a,b,c}} + {Len} on capacities 0..4, executed on a fresh real LRUCache in lock-step with a reference LRU, comparing return value, Len, callback log and Dump (full recency order) after EVERY operation plus a final probe of every key; " +
+		Rule: "[the removal callback is installed after a decoy that must never fire and is re-installed every fifth operation] bounded-exhaustive: every sequence of length<=L over the 10-letter alphabet {Store(k,fresh) , Load(k), Delete(k) : k in {a,b,c}} + {Len} on capacities 0..4, executed on a fresh real LRUCache in lock-step with a reference LRU, comparing return value, Len, callback log and Dump (full recency order) after EVERY operation plus a final probe of every key; " +
 			"random: long sequences on capacities {0,1,2,3,4,7,64,512} with key sets 1.2-3x capacity and keys of several dynamic types; values of every dynamic kind (nil interface, typed nil, uncomparable) through Delete / eviction / overwrite; fault injection at the hook: a removal callback that panics on every k-th invocation (caller recovers) on capacities 1..4 — the cache must stay the model's bounded LRU map. distinct = distinct (capacity, op sequence) with at least one Store; non-trivial = sequence contains a Store",
 		Exhaustive: func(t core.Tier) bool { return true },
 		Shards:     func(t core.Tier) int { return 16 },
